@@ -505,7 +505,7 @@ func (e *env) modify(s *session, st *Step) {
 		e.processResults(s, []*spb.ModifyResponse{{Result: post}})
 	}
 	e.afterQuiescence(s)
-	e.altPayload = nil
+	e.altPayload, e.ambigKeys = nil, nil
 	e.invalidKeys = nil
 }
 
